@@ -47,6 +47,8 @@ Proof.
     + destruct (alive s i0); exists []; reflexivity.
     + destruct (existsb _ _); exists []; reflexivity.
     + destruct (alive s i0); exists []; reflexivity.
+    + destruct (last_created _ _) as [i0|]; [|exists []; reflexivity].
+      destruct (alive s i0); [cbn; apply (Hupd _ _ [Start t OpCons]); reflexivity|exists []; reflexivity].
 Qed.
 
 Theorem listener_ring_is_a_ring_run mevs i :
@@ -132,6 +134,7 @@ Proof.
     + destruct (alive s i); constructor; cbn; auto.
     + destruct (alive s i); constructor; cbn; auto.
     + destruct (alive s i); constructor; cbn; auto.
+    + destruct (last_created _ _) as [i|]; [destruct (alive s i)|]; constructor; cbn; auto.
 Qed.
 
 (* sequential histories (C10): one thread performs the whole history *)
@@ -167,7 +170,8 @@ Proof.
                | |- context[match ?x with _ => _ end] => destruct x
                end; cbn; rewrite ?mthr_send_next by assumption; cbn; rewrite ?upd_other by assumption; try (now apply Hi).
     + unfold mstart. destruct (mthr s 0%nat); try (now apply Hi).
-      destruct o; try discriminate Hat; try destruct (alive s i); rewrite ?mthr_send_next by assumption; cbn; rewrite ?upd_other by assumption; now apply Hi.
+      destruct o; try discriminate Hat; try destruct (alive s i); try (destruct (last_created _ _) as [i0|]; [destruct (alive s i0)|]);
+        rewrite ?mthr_send_next by assumption; cbn; rewrite ?upd_other by assumption; now apply Hi.
   - (* a pending drop targets a live stream *)
     intros i. destruct e as [t|t o]; cbn in Ht; subst t; cbn.
     + unfold mstep, after_mcons. destruct (mthr s 0%nat) eqn:E; try discriminate Hk; try (now apply Hd);
@@ -177,7 +181,8 @@ Proof.
                end; cbn; rewrite ?upd_same; try discriminate; try (now apply Hd); try (rewrite E; discriminate); try (rewrite E; now apply Hd);
         try (intros H; exfalso; eapply mthr_send_next_same; eauto; fail).
     + unfold mstart. destruct (mthr s 0%nat) eqn:E; try (now apply Hd); try (rewrite E; discriminate); try (rewrite E; now apply Hd).
-      destruct o; try discriminate Hat; try (destruct (alive s i0) eqn:Ea); cbn; rewrite ?upd_same; try discriminate;
+      destruct o; try discriminate Hat; try (destruct (alive s i0) eqn:Ea); try (destruct (last_created _ _) as [i1|]; [destruct (alive s i1)|]);
+        cbn; rewrite ?upd_same; try discriminate;
         try (intros H; exfalso; eapply mthr_send_next_same; eauto; fail).
       intros H. injection H as <-. exact Ea.
   - (* no stepped creation / removal is ever in progress *)
@@ -188,7 +193,8 @@ Proof.
                | |- context[match ?x with _ => _ end] => destruct x
                end; cbn; rewrite ?upd_same; try reflexivity; try (rewrite E; reflexivity).
     + unfold mstart, send_next. destruct (mthr s 0%nat) eqn:E; try (rewrite E; exact Hk); try (rewrite E; reflexivity).
-      destruct o; try discriminate Hat; repeat match goal with |- context[if ?b then _ else _] => destruct b end; cbn; rewrite ?upd_same; reflexivity.
+      destruct o; try discriminate Hat; try (destruct (last_created _ _) as [i1|]);
+        repeat match goal with |- context[if ?b then _ else _] => destruct b end; cbn; rewrite ?upd_same; reflexivity.
 Qed.
 
 Theorem bookkeeping_sequential mevs : Forall (fun e => mtid e = 0%nat /\ atomic_ev e = true) mevs -> BInv (fold_left mexec mevs (minit M)).
